@@ -3,6 +3,8 @@
 Correspondence:
   observable 0: the Filter object (in memory or Filter.read of a text file listed by increasing or decreasing
                 wavelength, asymmetric curves) holds exactly the (frequency, response) pairs that were written.
+  observable 1a: utils.integrate.integrate_subset(x, y, a, b) on the curve in stored order, limits equal / swapped / on
+                knots / on the table ends / generic (inside the table), against driver op `c06.integ`.
   observable 1: Filter.rebin(nu).response for filters built in memory (from frequencies or wavelengths,
                 normalised or not) or read through Filter.read from a generated two-column text file,
                 against driver op `rebin` (normalize + rebin of the model, exact rationals, on the float
@@ -41,7 +43,10 @@ REQUIRED_BRANCHES = ['filter_increasing_nu', 'filter_decreasing_nu', 'sed_increa
                      'grid_unit_Hz', 'grid_unit_GHz', 'grid_unit_THz', 'filter_nu_unit_Hz', 'filter_nu_unit_GHz',
                      'filter_nu_unit_THz', 'file_wav_increasing', 'file_wav_decreasing',
                      'file_asymmetric', 'response_dtype_f8', 'response_dtype_f4', 'response_dtype_i8', 'response_dtype_i4', 'low_frequency_filter',
-                     'integer_response_low_frequency', 'package_cube_error_unit_differs', 'package_files_error_unit_differs', 'package_seds_gz', 'package_seds_subdir', 'package_seds_subdir_1', 'package_seds_subdir_2',
+                     'integer_response_low_frequency', 'package_cube_error_unit_differs', 'package_files_error_unit_differs', 'integ_generic', 'integ_swapped', 'integ_equal_inside', 'integ_equal_knot', 'integ_equal_first_end',
+                     'integ_equal_last_end', 'integ_table_ends', 'integ_table_ends_swapped', 'integ_both_knots',
+                     'integ_end_to_inside', 'integ_inside_to_end', 'integ_knot_to_inside', 'integ_decreasing_storage',
+                     'integ_increasing_storage', 'package_seds_gz', 'package_seds_subdir', 'package_seds_subdir_1', 'package_seds_subdir_2',
                      'package_seds_subdir_3', 'sed_from_wav_and_nu', 'sed_from_nu_only', 'sed_from_wav_only', 'cube_from_nu_only',
                      'cube_from_wav_only',
                      'notch_filter', 'rebinned_interior_zero', 'package_cube_interior_zero', 'package_files_interior_zero',
@@ -468,7 +473,8 @@ def gen_case(rng, directed=None, small=False, hist=None, notch=None, r_dtype=Non
     grid_unit = 'Hz' if exact else rng.choice(['Hz', 'Hz', 'GHz', 'THz'])
     if grid_unit != 'Hz':
         grid = [float(repr(g / FREQ_FACTOR[grid_unit])) for g in grid]
-    case = dict(kind=gkind, filter=flt, grid=grid, grid_unit=grid_unit, package=None)
+    case = dict(kind=gkind, filter=flt, grid=grid, grid_unit=grid_unit, package=None,
+                integ_fracs=[round(rng.uniform(0.01, 0.99), 3), round(rng.uniform(0.01, 0.99), 3)])
     if hist is None:
         hist = [rng.choice(HIST_OPS) for _ in range(rng.choice([0, 1, 1, 2, 3]))]
     case['history'] = [gen_step(rng, op, flt, nodes) for op in hist]
@@ -706,6 +712,58 @@ def check_rebin(f, cur, grid_in, gunit, drv, label, info=None):
     return None, total, scale
 
 
+def check_integ(cur, fracs, drv, branches):
+    """direct calls of utils.integrate.integrate_subset on the curve (stored order) against driver op `c06.integ`
+    (SF.integrateSubset): equal limits (inside a segment, on a knot, at either end), limits in decreasing order, both
+    limits on knots, limits equal to the table ends, generic limits.  Limits outside the table are not in C06's reach
+    (Filter.rebin clips to the table first; integrate_subset indexes out of range there) and are left out."""
+    from sedfitter.utils.integrate import integrate_subset
+    xs = [float(v) for v in cur['nus']]
+    ys = [float(v) for v in cur['r']]
+    if len(xs) < 2:
+        return None
+    lo, hi = min(xs), max(xs)
+    inc = sorted(xs)
+    fa, fb = sorted(fracs)
+    inside = lambda t: lo + (hi - lo) * t
+    calls = [('integ_generic', inside(fa), inside(fb) if fb > fa else hi),
+             ('integ_swapped', inside(fb) if fb > fa else hi, inside(fa)),
+             ('integ_equal_inside', 0.5 * (inc[0] + inc[1]), 0.5 * (inc[0] + inc[1])),
+             ('integ_equal_first_end', lo, lo), ('integ_equal_last_end', hi, hi),
+             ('integ_table_ends', lo, hi), ('integ_table_ends_swapped', hi, lo),
+             ('integ_end_to_inside', lo, inside(fb)), ('integ_inside_to_end', inside(fa), hi)]
+    if len(inc) >= 3:
+        k = 1 + int(fa * (len(inc) - 2)) % (len(inc) - 2)
+        calls += [('integ_equal_knot', inc[k], inc[k]), ('integ_both_knots', inc[0], inc[k]),
+                  ('integ_both_knots', inc[k], inc[-1]), ('integ_knot_to_inside', inc[k], inside(fb) if inside(fb) != inc[k] else hi)]
+    if len(inc) >= 4:
+        calls.append(('integ_both_knots', inc[2], inc[1]))
+    scale = sum(abs(0.5 * (inc[i + 1] - inc[i])) * (abs(ys[xs.index(inc[i])]) + abs(ys[xs.index(inc[i + 1])]))
+                for i in range(len(inc) - 1))
+    nodes_txt = ' '.join('%s %s' % (rat(x), rat(y)) for x, y in zip(xs, ys))
+    branches.add('integ_decreasing_storage' if xs[-1] < xs[0] else 'integ_increasing_storage')
+    tol = TOL_R[cur.get('r_dtype', 'f8')]
+    for name, a, b in calls:
+        try:
+            got = float(integrate_subset(np.array(xs, dtype=float), np.array(ys, dtype=float), a, b))
+        except Exception as e:
+            return CaseResult(False, violates=True,
+                              detail='integrate_subset(x, y, %r, %r) with limits inside the table raised %s: %s'
+                              % (a, b, type(e).__name__, e))
+        want = drv.ask('c06.integ %d %s %s %s' % (len(xs), nodes_txt, rat(a), rat(b))).rat()
+        branches.add(name)
+        if not (abs(got - float(want)) <= tol * scale and np.isfinite(got)) or (a == b and got != 0.):
+            nodes = sorted(zip([Fraction(x) for x in xs], [Fraction(y) for y in ys]))
+            indep = exact_integral(nodes, Fraction(a), Fraction(b))
+            viol = not abs(got - float(indep)) <= tol * scale
+            return CaseResult(False, violates=True if viol else None,
+                              detail=('%s: integrate_subset(x, y, %r, %r) = %r; exact integral of the piecewise-linear curve '
+                                      'between the limits = %r (model) / %r (independent); %d nodes stored in %s order'
+                                      % (name, a, b, got, float(want), float(indep), len(xs),
+                                         'decreasing' if xs[-1] < xs[0] else 'increasing')))
+    return None
+
+
 def apply_filter_step(f, step, cur):
     """one change of the SAME Filter object through its public attributes; returns the curve it holds afterwards"""
     from astropy import units as u
@@ -755,6 +813,11 @@ def run_case(case):
             bad.branches = sorted(branches)
             return bad
         nontrivial = scale > 0
+        # ---- the integration helper itself, on the un-normalised samples
+        bad = check_integ(dict(cur, normalize=False), case.get('integ_fracs', [0.23, 0.71]), drv, branches)
+        if bad is not None:
+            bad.branches = sorted(branches)
+            return bad
         # ---- history on the one Filter object: rebin has been called; change the curve and rebin again
         done = []
         for step in case.get('history', []):
